@@ -209,6 +209,17 @@ impl J {
     pub fn to_value(&self) -> serde_json::Value {
         serde_json::from_str(&print(self, Style::default())).unwrap_or(serde_json::Value::Null)
     }
+    /// The same document with only the first occurrence of every repeated object key kept (at every level).
+    pub fn keep_first_keys(&self) -> J {
+        match self {
+            J::Obj(v) => {
+                let mut seen = std::collections::BTreeSet::new();
+                J::Obj(v.iter().filter(|(k, _)| seen.insert(k.clone())).map(|(k, e)| (k.clone(), e.keep_first_keys())).collect())
+            }
+            J::Arr(v) => J::Arr(v.iter().map(|e| e.keep_first_keys()).collect()),
+            other => other.clone(),
+        }
+    }
     pub fn has_duplicate_keys(&self) -> bool {
         match self {
             J::Obj(v) => {
